@@ -671,6 +671,9 @@ def run(ctx):
     ctx.require('binary_typed_without_attachments', 20)
     ctx.require('ack_id_race_schedules', 30)
     ackid_sched.run_part(ctx, 'client', (ctx.budget or 30) * 0.12)
+    # the same acknowledgement handled by two threads at the same time
+    ctx.require('duplicate_ack_schedules', 30)
+    ackid_sched.run_dup_ack_part(ctx, 'client', (ctx.budget or 30) * 0.08)
     k = 0
     while not ctx.out_of_time() and not ctx.too_many_violations():
         run_case(ctx, k)
@@ -679,7 +682,7 @@ def run(ctx):
 
 
 def replay(ctx, w):
-    if w['witness'].get('part') == 'ack_id_race':
+    if w['witness'].get('part') in ('ack_id_race', 'dup_ack_race'):
         from checks import ackid_sched
         return ackid_sched.replay(ctx, w)
     run_case(ctx, w['witness']['case_index'])
